@@ -6,7 +6,7 @@ import ast
 import re
 
 from ..cfg import cfg_of
-from ..core import named_args, seq, AnalysisError, call_name, unparse, walk_no_nested
+from ..core import inline_locals, named_args, seq, AnalysisError, call_name, unparse, walk_no_nested
 from ..pattern import body_is, find, find_expr, has, has_expr
 from ..report import Ctx
 
@@ -75,7 +75,6 @@ self.data.drop(columns=[_COL], inplace=True)
     if b is None:
         ctx.shape('C13.R2', 'Database.remove', False, f, '', 'a temporary column receives the expression; excludedData = len(rows where it is non-zero); those rows are dropped; the column is dropped')
     else:
-        from ..core import inline_locals
 
         col = b['_COL']
         pred = f'self.data[self.data[{col}] != 0].index'
@@ -90,9 +89,8 @@ self.data.drop(columns=[_COL], inplace=True)
     store = [n for n in walk_no_nested(f.node) if isinstance(n, ast.Assign) and unparse(n.targets[0]) == 'self.data[column]']
     ok = len(dup) == 1 and len(store) == 1 and cfg.dominates(cfg.node_of(dup[0]), cfg.node_of(store[0]))
     if ok:
-        src = unparse(store[0].value)
-        defs = [n for n in walk_no_nested(f.node) if isinstance(n, ast.Assign) and unparse(n.targets[0]) == src]
-        ok = len(defs) == 1 and isinstance(defs[0].value, ast.Call) and call_name(defs[0].value) == 'get_value_c' and {k: v for k, v in named_args(defs[0].value).items() if k in ('database', 'aggregation', 'prepare_ids')} == {'database': 'self', 'aggregation': 'False', 'prepare_ids': 'True'}
+        val = inline_locals(f.node, store[0].value)
+        ok = isinstance(val, ast.Call) and call_name(val) == 'get_value_c' and {k: v for k, v in named_args(val).items() if k in ('database', 'aggregation', 'prepare_ids')} == {'database': 'self', 'aggregation': 'False', 'prepare_ids': 'True'}
     ctx.add('C13.R2', 'Database.add_column', ok, f, 'the per-row values of the formula are stored under the new name, an existing name is refused first' if ok else 'add_column changed', 'add_column')
     f = D.methods['scale_column']
     ok = [unparse(s) for s in f.body] == ['self.data[column] *= scale']
@@ -123,18 +121,15 @@ return __RET
         b = find(f.node, 'return [EstimationValidation(estimation=pd.concat(_SL[:_I] + _SL[_I + 1:]), validation=_V) for _I, _V in enumerate(_SL)]')
     ctx.add('C13.R3', 'Database.split:folds', b is not None, f, 'estimation part i = all slices but i, validation part = slice i, paired fold by fold' if b is not None else 'construction or pairing of the folds changed', 'folds')
     sl = b['_SL'] if b else '_SL'
-    ok = find(f.node, f"""
+    ok = has(f.node, f"""
 if groups is None:
     ___
 else:
     _IDS = self.data[groups].unique()
     ___
     _SIDS = np.array_split(_IDS, slices)
-    {sl} = __COMP
+    {sl} = [self.data[self.data[groups].isin(_X)] for _X in _SIDS]
 """)
-    if ok:
-        bb = {'_SIDS': ok['_SIDS']}
-        ok = m_node(_parse('[self.data[self.data[groups].isin(_X)] for _X in _SIDS]')[0].value, ok['__COMP'][1], bb)
     ctx.add('C13.R3', 'Database.split:groups', ok, f, 'grouped slices contain all rows of the selected group ids' if ok else 'grouped slicing changed', 'groups')
     ok = has(f.node, f"""
 if groups is None:
